@@ -95,7 +95,7 @@ def name_cases(cx, kinds=('None', 'str', 'bytes', 'list')):
         v = cx.run.input_buf('name', 'bytes')
         return k, v
     if k == 'list':
-        seq = BufSeq.fresh(cx.run, 'name', 'bytearray')
+        seq = cx.run.input_bufseq('name', 'bytearray')
         cx.run.assume(seq.total() < M64)
         return k, seq
     raise ValueError(k)
